@@ -78,7 +78,7 @@ class C16(Prop):
             w = None if rng.random() < 0.4 else [rng.choice([1, 2, 3, 0.5, 0.25]) for _ in range(n)]
             nmax = rng.choice([None, n, n + 3, max(1, n - 1), max(1, n // 2), 1000])
             yield {"stream": "pd", "container": rng.choice(CONTAINERS), "rows": rows, "j": j, "k": kk, "grid": grid,
-                   "grid_container": rng.choice(["list", "np", "polars"]), "w": w, "n_max": nmax, "seed": rng.randint(0, 10**6),
+                   "grid_container": rng.choice(["list", "np", "polars"]), "w": w, "n_max": nmax, "seed": rng.choice([0, 0, 1, rng.randint(0, 10**6)]),
                    "a": rng.randint(-2, 3), "b": rng.randint(-2, 2), "c": rng.randint(-1, 3)}
 
     def subsample(self, case):
